@@ -122,7 +122,7 @@ func verifyUnit(env *Env, key string, fn *ssa.Function, opts UnitOpts) (u *Unit)
 			rvars[k] = v
 		}
 		x.bindResult(rvars, fn, r.val)
-		ce := &cenv{x: x, st: r.st, old: fr.old, vars: rvars}
+		ce := &cenv{x: x, st: r.st, old: fr.old, vars: rvars, fr: fr}
 		for _, cl := range con.Ensures {
 			x.assertClause(r.st, "ensures", "", ce, cl, fn.Pos())
 		}
